@@ -25,6 +25,11 @@ CHECKS = {
                     'language translator), validated per run on ~90 strings per validator.',
             'technique': 'source-to-SMT translation (regular languages) decided by z3; ' + SYM + ' for the constructors',
             'engine': 'crosshair-z3'},
+    'C03': {'text': 'The real constructors run with symbolic serial counter, reply serial, flag bits and body leaves; the '
+                    'bytes are checked clause by clause through an independent message decoder and parsed back by the real '
+                    'parseMessage; foreign encodings (both byte orders, permuted fields, symbolic unknown field code) from '
+                    'the reference encoder must parse to the same message; the size limit is decided on a symbolic limit.',
+            'ref': 'DESIGN.md 2/C03', 'note': NOTE, 'technique': SYM + ' against an independent reference message codec'},
 }
 _TODO = 'check not built yet in this revision (planned, see DESIGN.md section 2)'
 NOT_APPLICABLE = {('C%02d' % i): _TODO for i in range(1, 21)}
